@@ -1,8 +1,67 @@
-(* C19 — pins (theorems in Proofs/C19Main.v to follow). *)
+(* C19 — external-tool output is imported totally and faithfully.  Property theorems only.
+   `unify` is GENERATED from adapter.unify_classification on every run (Gen/Adapter.v). *)
 From Coq Require Import String Ascii ZArith List Bool Arith.
-From RV Require Import Base.Val Base.PyStr Gen.Common Gen.Adapter Model.Fr3d.
+From RV Require Import Base.Val Base.PyStr Gen.Common Gen.Adapter Model.Fr3d Proofs.C19Main.
 Import ListNotations.
 
 Lemma C19_pin_dssr_membership : dssr_lw_test_is_membership = true.
 Proof. reflexivity. Qed.
 Print Assumptions C19_pin_dssr_membership.
+
+(* no label string whatsoever makes the label function raise *)
+Theorem C19_unify_total : forall s, exists r, unify s = Ok r.
+Proof. exact unify_total. Qed.
+Print Assumptions C19_unify_total.
+
+(* all 18 Leontis-Westhof classes, in all 8 letter-case patterns, with optional 'n' prefix and 'a' suffix (576 labels) *)
+Theorem C19_lw_all_cases : length lw_labels = 576 /\
+  forallb (fun lc => result_is "base-pair" (snd lc) (unify (fst lc))) lw_labels = true.
+Proof. exact lw_all_cases. Qed.
+Print Assumptions C19_lw_all_cases.
+
+Theorem C19_stackings : forallb (fun lc => result_is "stacking" (snd lc) (unify (fst lc))) stacking_labels = true.
+Proof. exact stackings_all. Qed.
+Print Assumptions C19_stackings.
+
+Theorem C19_bph_br_digits :
+  forallb (fun lc => result_is "base-phosphate" (snd lc) (unify (fst lc))) (digit_labels "BPh") = true /\
+  forallb (fun lc => result_is "base-ribose" (snd lc) (unify (fst lc))) (digit_labels "BR") = true.
+Proof. exact bph_br_digits. Qed.
+Print Assumptions C19_bph_br_digits.
+
+Theorem C19_unknown_kept_as_other :
+  forallb (fun l => match unify (LS l) with Ok (c, None) => str_eqb c (LS "other") | _ => false end)
+          [""; "n"; "a"; "cW"; "cWX"; "s36"; "S35"; "xBPh"; "10BR"; "cWWW"; "hello"; "0bph"; "tsz"; "__doc__"]%string = true.
+Proof. exact unknown_kept_as_other. Qed.
+Print Assumptions C19_unknown_kept_as_other.
+
+(* every line: never raises; with two parsable unit ids exactly one interaction between exactly those residues, filed under
+   what the label denotes; otherwise skipped *)
+Theorem C19_line_total : forall line, exists r, process_line line = Ok r.
+Proof. exact process_line_total. Qed.
+Print Assumptions C19_line_total.
+
+Theorem C19_line_faithful : forall line nt1 nt2,
+    line_min_fields <= length (split_on (ascii_of_nat 9) line) ->
+    parse_unit_id (nth 0 (split_on (ascii_of_nat 9) line) []) = Ok nt1 ->
+    parse_unit_id (nth 2 (split_on (ascii_of_nat 9) line) []) = Ok nt2 ->
+    exists cat cls, unify (nth 1 (split_on (ascii_of_nat 9) line) []) = Ok (cat, cls) /\
+                    process_line line = Ok (Some {| i_category := cat; i_nt1 := nt1; i_nt2 := nt2; i_class := cls |}).
+Proof. exact process_line_faithful. Qed.
+Print Assumptions C19_line_faithful.
+
+Theorem C19_line_skipped : forall line,
+    (length (split_on (ascii_of_nat 9) line) < line_min_fields \/
+     (exists e, parse_unit_id (nth 0 (split_on (ascii_of_nat 9) line) []) = Raise e) \/
+     (exists e, parse_unit_id (nth 2 (split_on (ascii_of_nat 9) line) []) = Raise e)) ->
+    process_line line = Ok None.
+Proof. exact process_line_skips. Qed.
+Print Assumptions C19_line_skipped.
+
+Theorem C19_listing_total : forall lines, exists l, import_lines lines = Ok l.
+Proof. exact import_total. Qed.
+Print Assumptions C19_listing_total.
+
+Theorem C19_dssr_total : forall lw, exists r, dssr_lw lw = Ok r.
+Proof. exact dssr_lw_total. Qed.
+Print Assumptions C19_dssr_total.
